@@ -11,7 +11,8 @@ def sg(name, entry, funcs, sizes_q, sizes_t, extra=None, **kw):
 
 def rep_inst(a, b, c, **kw):
     # per-loop bounds: the scans over the source stop after SN+1 steps although the cursor jumps by the token length
-    us = 'qstrreplace.0:%d,qstrreplace.3:%d,qstrreplace.1:%d,qstrreplace.2:%d,qstrreplace.4:%d,strncmp.0:%d' % (a + 2, a + 2, b + 2, c + 2, c + 2, b + 2)
+    # cbmc numbers loops by back edge: 0 word loop (token mode), 1 token scan, 2 source scan (token mode), 3 word loop (string mode), 4 source scan (string mode)
+    us = 'qstrreplace.0:%d,qstrreplace.1:%d,qstrreplace.2:%d,qstrreplace.3:%d,qstrreplace.4:%d,strncmp.0:%d' % (c + 2, b + 2, a + 2, c + 2, a + 2, b + 2)
     return dict(SN=a, TN=b, WN=c, unwind=max(6, a * max(c, 1) + 2), unwindset=us, **kw)
 
 GROUPS = [
